@@ -255,7 +255,7 @@ prop("C16", ["proto_glue", "c16_validator", "c16_confinement", "plain_invalid_na
 prop("C17", ["raw_prune_pieces_dotfile_only", "c02_cleanup_temp_by_age", "raw_collect_a_temp", "raw_ops_sanity_twin"],
      ["raw_apply_update_evict_a_moveback_b"],
      outside=["nested directories below the cache directory (never listed: directories are skipped)"], assumptions=COMMON_ASSUME)
-prop("C18", ["stack_gou_glue", "proto_glue", "stack_ops_glue", "stack_finalize_glue", "plain_get_fault", "plain_touch_fault", "plain_ops_sanity_twin"],
+prop("C18", ["stack_gou_glue", "proto_glue", "stack_ops_glue", "stack_finalize_glue", "c07_apply_glue", "plain_get_fault", "plain_touch_fault", "plain_ops_sanity_twin"],
      ["stackc_set_temp_w1r1_fault", "plain_set_fault", "plain_put_fault", "sharded_put_absent_fault", "stackc_set_w1r1_fault", "stack_set_w1r1_fault"],
      outside=["more than one failing call per operation", "failures inside the caller's populate function other than its own error return", "re-issuing the operation after the fault is covered by the fault-free harnesses starting from arbitrary valid states (C02)"],
      assumptions=COMMON_ASSUME)
